@@ -165,8 +165,9 @@ type Sim struct {
 	victim     *task
 	last       *task
 
-	stallPct    int  // percent*10 probability of a stall per step (0 = off)
-	newbornLast bool // tasks parked at "start" are released only when nothing else is runnable
+	stallPct    int           // percent*10 probability of a stall per step (0 = off)
+	newbornLast bool          // tasks parked at "start" are released only when nothing else is runnable
+	stallDur    time.Duration // simulated time that passed in injected stalls so far
 	stalls      int
 	idles       int
 	schedHash   uint64
@@ -494,6 +495,14 @@ func SelectOrder(site string, n int) [8]int {
 //go:norace
 func EnableStalls(permille int) {
 	cur.stallPct = permille
+}
+
+// StallTime is the simulated time that has passed in injected stalls (time during which runnable
+// tasks were held back) since the start of the run: a liveness bound is counted net of it.
+//
+//go:norace
+func StallTime() time.Duration {
+	return cur.stallDur
 }
 
 // NewbornLast makes the scheduler (generation mode) prefer tasks that have already run over tasks
